@@ -200,6 +200,12 @@ func tryAlternativeECDSACurves(pub *ecdsa.PublicKey, digest, sig []byte, r, s *b
 			continue
 		}
 
+		// the public key must be a point on the alternative curve (generic curve arithmetic panics otherwise)
+		if !altCurve.IsOnCurve(pub.X, pub.Y) {
+			slog.Info("VerifySignature public key is not on alternative curve", "curve", altCurveName)
+			continue
+		}
+
 		altPub := &ecdsa.PublicKey{
 			Curve: altCurve,
 			X:     pub.X,
